@@ -814,6 +814,9 @@ impl Interp {
         let broken = ctor::violates_precondition(c, op);
         if let Some(p) = simalloc::stack_pattern() {
             ctor::dirty_stack(p);
+            if p != 0 {
+                self.probes.hit("constructor_over_dirtied_stack");
+            }
         }
         let r = self.call(|| {
             let _s = Scope::enter();
@@ -890,7 +893,12 @@ impl Interp {
 
     fn op_mbi_new(&mut self, op: &Op) {
         // both ways of obtaining an empty builder
-        let b = if op.arg(1) % 2 == 1 { mb::Builder::default() } else { mb::Builder::new() };
+        let b = if op.arg(1) % 2 == 1 {
+            self.probes.hit("builder_from_default");
+            mb::Builder::default()
+        } else {
+            mb::Builder::new()
+        };
         self.put(op.arg(0), Obj::Mbi { b: Some(b), model: BuilderModel::default() });
         self.note(&[20], &[]);
     }
@@ -1060,6 +1068,9 @@ impl Interp {
             self.note(&[35], &[]);
         }
         self.probes.hit(&format!("mbi_build/slots{}", model.slots.len()));
+        if model.calls > 255 {
+            self.probes.hit("mbi_history_with_over_255_tags");
+        }
         self.probes.hit("mbi_build");
         let snapshot = defined_content(&img, 8);
         self.put(op.arg(0), Obj::BuiltMbi { s, snapshot });
